@@ -255,7 +255,7 @@ def build(funcs):
     add('LGt::one', r'<impl>::one$', r'^\(\) -> LGt$', [], lambda v, st: W('LGt', C(1)), ('C11',))
     add('LGt::mul', r'<impl>::mul$', r'^\(LGt, LGt\) -> LGt$', ['LGt', 'LGt'], lambda v, st: W('LGt', inner_of(v[0]) * inner_of(v[1])), ('C11',))
     add('LGt::pow', r'<impl>::pow$', r'^\(&LGt, LFr\) -> LGt$', ['LGt', 'LFr'],
-        lambda v, st: W('LGt', ufx(r'^<Fq12 as FieldElement>::pow::<Fr>$', inner_of(v[0]), inner_of(v[1]))), ('C11',), by_ref=[1, 0])
+        lambda v, st: W('LGt', ufx(r'^<Fq12 as FieldElement>::pow::<Fr>$', inner_of(v[0]), inner_of(v[1]))), ('C11', 'C01'), by_ref=[1, 0])
     add('LGt::inverse', r'<impl>::inverse$', r'^\(&LGt\) -> Option<LGt>$', ['LGt'],
         lambda v, st: (NONE if opt_of(st, r'^<Fq12 as FieldElement>::inverse$')[3] is None else
                        Some(W('LGt', ('ufp', opt_of(st, r'^<Fq12 as FieldElement>::inverse$')[3])))), ('C11',), by_ref=[1])
